@@ -78,6 +78,11 @@ CHECKS["C14"] = ("exploration",
  "All subjects of length <= 4 (thorough 5) over a 7-symbol alphabet mixing 1-, 2-, 3- and 4-byte characters, a combining mark and newline x 70 regexes (literals of every width, classes, anchors, empty-matching forms, unnamed/named/nested/optional groups, alternations with unmatched groups, invalid patterns, patterns whose text equals pattern+flags of another) x 10 flag sets are sent, in one fixed history per worker, through ONE compiled program so that the regexp cache is shared: match must report exactly what Go's regexp plus an independent byte-to-code-point conversion reports (offsets, lengths, strings, captures, names); test, capture, scan, splits, split/2, sub and gsub must be the documented compositions of the (global) matches and terminate (poll budget + watchdog); every reported (offset, length) must slice the subject to the reported string. .[i:j] and .[i] for all i, j in -(n+1)..n+1, length = explode|length, indices/index/rindex for every needle of length <= 2, and long subjects with multi-byte prefixes up to 120 code points.",
  "Trusted: Go's regexp as the regex oracle and the documented flag translation (i -> (?i), m -> (?s)).",
  "DESIGN.md §4 C14")
+CHECKS["C15"] = ("exploration",
+ "exhaustive product of queries x input streams x all 512 option subsets against a reference command model built on the library",
+ "The full product of 57 queries (values of each type, several outputs, empty, errors at first/middle/last position and with string/null/object payloads, halt, halt_error with and without codes 0/1/5/256/257/-1, strings with NUL at every position and newlines, falsy last outputs, input-consuming queries, parse and compile errors) x input streams of 0..3 documents (thorough 0..4) from 6 document kinds with optional malformed tails x all 512 subsets of {-r, -j, --raw-output0, -c, --tab, --indent 1, -e, -n, -s} is run in-process and compared byte for byte with a reference command model: the library's outputs per input, rendered by Marshal + json.Indent in the selected unit, raw strings, the selected terminator, --raw-output0 rejecting NUL, halt semantics, stderr non-empty iff a diagnostic is due, exit status per the documented table (last error wins, modulo 256). All distributions of three pieces (valid or malformed) over up to three files and stdin, in main-loop, -n [inputs] and -s modes; a deterministic slice through the real binary.",
+ "The layout of json.Indent is the reference layout (C12 ties the command's encoder to Marshal independently).",
+ "DESIGN.md §4 C15")
 NOT_YET = "check not built yet (work in progress in this session); see DESIGN.md for the planned exploration"
 
 def commits():
